@@ -12,6 +12,17 @@ for daylight saving at all, which is the formal content of "independently of the
 zone and of daylight-saving transitions".  `strptime` (three layouts from the regenerated
 table) and the zone-NAME lookup are parameters of the model; the numeric zone, the civil-date
 arithmetic, the comparison, the unit table and the overflow test are proved here.
+
+Audit notes.  (1) `strptime` is an ARBITRARY function in every theorem below: which texts the three layouts accept
+and which broken-down time they yield ("interpreted per RFC 5322" as far as day, month, year, time of day go) is
+not stated anywhere; `Gen.dateFormats` is regenerated from time.c but no theorem mentions it.  (2) A date condition
+that holds is still passed through `expr_regexec` with the pattern `.*` on the displayed text, and the regex library is
+an arbitrary oracle (`env.rx`): "matches IFF the age holds" is proved up to that call (`C15_fields`,
+`C15_header_true_age`); with an oracle that does not match `.*` the result is "no match".  (3) `C15_overflow`,
+`C15_fields_source`, `C15_fields_strict`, the second halves of `C15_true_age` and `C15_units` and the first two
+conjuncts of `C15_file_fields` restate definitions of the model (they hold by unfolding); the content is in
+`C15_zone_offset(_only)`, `C15_civil` (two different algorithms), `C15_true_age`.1, `C15_age_literal_exact(_field)`,
+`C15_fields`, `C15_file_fields`.3 and the table equation `Gen.scalars = Spec.units`.
 -/
 
 namespace Mdsort.Props
@@ -37,7 +48,9 @@ theorem C15_civil (y mon d h mi s : Nat) (hy : 1 ≤ y) (hm : mon ≤ 11) (hd : 
 
 /-- The true age: for every broken-down time the layouts produce, every numeric zone and every
 `now`: the parsed instant is the UTC reading minus the zone, and `>` / `<` compare `now − instant`
-strictly with the configured age. -/
+strictly with the configured age.  (The second conjunct is the definition of `dateMatches` and does not mention the
+parsed instant; the two are joined, through the evaluator, in `C15_header_true_age` below.  `hne` excludes the one
+instant 1969-12-31 23:59:59 UTC, which `time_parse` takes for the error value of `timegm`.) -/
 theorem C15_true_age (strp : Bytes → Option (Tm × Bytes)) (zn : Bytes → Option Int) (s rest : Bytes)
     (y mon d h mi sec : Nat) (plus : Bool) (hh mm : Nat) (tail : Bytes)
     (hy : 1 ≤ y) (hm : mon ≤ 11) (hd : 1 ≤ d) (h1 : hh ≤ 23) (h2 : mm ≤ 59)
@@ -48,13 +61,34 @@ theorem C15_true_age (strp : Bytes → Option (Tm × Bytes)) (zn : Bytes → Opt
     ∀ age now t, (dateMatches .gt age now t = decide (now - t > age)) ∧ (dateMatches .lt age now t = decide (now - t < age)) :=
   Proofs.true_age strp zn s rest y mon d h mi sec plus hh mm tail hy hm hd h1 h2 hs hz hne
 
+/-- Non-vacuity of `C15_true_age`: every hypothesis instantiated.  `Thu, 15 Jan 2026 12:00:00  +0130 (CET)` - `strptime`
+delivers 2026-01-15 12:00:00 and leaves `  +0130 (CET)`; the instant is 12:00 UTC minus 1 h 30 min, whatever follows the zone. -/
+example :
+    let tm : Tm := { year := 2026, mon := 0, mday := 15, hour := 12, min := 0, sec := 0 }
+    let strp : Bytes → Option (Tm × Bytes) := fun _ => some (tm, ofString "  +0130 (CET)")
+    timeParse strp (fun _ => none) (ofString "Thu, 15 Jan 2026 12:00:00  +0130 (CET)") = some (1768478400 - 5400) ∧
+    Spec.epoch 2026 1 15 12 0 0 = 1768478400 ∧ Spec.zoneOffset 1 1 30 = 5400 := by
+  intro tm strp
+  have h := (C15_true_age strp (fun _ => none) (ofString "Thu, 15 Jan 2026 12:00:00  +0130 (CET)") (ofString "  +0130 (CET)")
+    2026 0 15 12 0 0 true 1 30 (ofString " (CET)") (by decide) (by decide) (by decide) (by decide) (by decide) rfl
+    (by decide +kernel) (by decide +kernel)).1
+  have e1 : Spec.epoch 2026 1 15 12 0 0 = 1768478400 := by decide +kernel
+  have e2 : Spec.zoneOffset 1 1 30 = 5400 := by decide +kernel
+  refine ⟨?_, e1, e2⟩
+  rw [h]
+  simp only [if_true, e2]
+  rw [show (0 + 1 : Nat) = 1 from rfl, e1]
+
 /-- The unit table regenerated from parse.y is the documented one, and a lexeme selects a unit
-iff it is a prefix of that unit's name and of no other. -/
+iff it is a prefix of that unit's name and of no other.  (The first conjunct is about the REGENERATED table:
+changing a value or a name in `scalars[]` of parse.y makes it false.  Given the first, the second compares two
+copies of the same `filter ... isPrefixOf` - `Model.scalarLookup` over `Gen.scalars`, `Spec.unitOf` over `Spec.units`.) -/
 theorem C15_units : Gen.scalars = Spec.units ∧
     ∀ lexeme v, scalarLookup lexeme = .value v ↔ Spec.unitOf lexeme = some v :=
   ⟨Proofs.scalars_table, fun l v => Proofs.scalarLookup_eq_spec l v⟩
 
-/-- Ages that do not fit 32 bits are rejected, and accepted ages are exactly `N × unit`. -/
+/-- Ages that do not fit 32 bits are rejected, and accepted ages are exactly `N × unit`.  (This is the definition
+of `Model.dateAge` with the test turned round; that the PARSER applies it to every age is `C15_age_literal_exact`.) -/
 theorem C15_overflow (n u : Nat) : dateAge n u = (if n * u < 2 ^ 32 then some (n * u) else none) :=
   Proofs.dateAge_spec n u
 
@@ -112,6 +146,30 @@ theorem C15_age_literal_tokens :
     (∀ n, Spec.decimal (toString n).toUTF8.toList = n) ∧
     (∀ k ds, Spec.decimal (List.replicate k 48 ++ ds) = Spec.decimal ds) :=
   ⟨fun sp rest w u h1 h2 h3 => Proofs.lex_unit sp rest w u h1 h2 h3, Proofs.decimal_toString, Proofs.decimal_leading_zeros⟩
+
+/-- Non-vacuity of `C15_age_literal_exact` with every hypothesis instantiated: the state after `date >` with
+` 000060 s break }` still to be read; the condition is accepted with the age 60 and the parser stops before ` break }`. -/
+example :
+    let cx : PCtx := { nl := 0, home := [], rxOk := fun _ => true }
+    let s : ParseSt := { rest := ofString " 000060 s break }", la := some .gt }
+    ∃ s', parseDate cx s = .ok (.leaf (.date 1 .header .gt 60)) s' ∧ s'.rest = ofString " break }" := by
+  intro cx s
+  have hdec : Spec.decimal (ofString "000060") = 60 := by decide +kernel
+  have h := C15_age_literal_exact cx s .gt [32] (ofString "000060") [32] (ofString " break }") "s" 1 rfl rfl
+    (by decide +kernel) (by decide) (by decide +kernel) (by decide +kernel) (by decide) (by decide +kernel) (by decide +kernel)
+  cases hp : parseDate cx s with
+  | ok t s' =>
+    rw [hp] at h
+    simp only [hdec] at h
+    refine ⟨s', ?_, h.2.2.1⟩
+    rw [h.2.1]
+    have hl : lineOf cx.nl (ofString " break }") = 1 := by decide +kernel
+    rw [hl]
+  | err l s' =>
+    rw [hp] at h
+    simp only [hdec] at h
+    exact absurd h (by decide)
+  | fuel s' => rw [hp] at h; exact h.elim
 
 /-! Non-vacuity of the hypotheses (`hw`: lexemes that denote units; a state with the comparison as lookahead is what
 `parseDateField` leaves), and whole files through `parseConfig`: `000060 s` is 60 seconds, `71582788 minutes` is
@@ -211,6 +269,55 @@ theorem C15_fields (env : Env) (root : Msg) (lno : Nat) (field : DateField) (cmp
 theorem C15_fields_strict (age now tim : Int) :
     (dateMatches .gt age now tim = true ↔ now - tim > age) ∧ (dateMatches .lt age now tim = true ↔ now - tim < age) :=
   ⟨Proofs.dateMatches_gt age now tim, Proofs.dateMatches_lt age now tim⟩
+
+/-- **The property in one statement, for `date [header]`** (`C15_fields` + `C15_fields_source` + `C15_true_age`): if the
+message's `Date` header is `s`, `strptime` reads `s` as the civil time `y-(mon+1)-d h:mi:sec` and what it leaves begins
+(after blanks) with the numeric zone `±hhmm`, then the condition `date <cmp> age` evaluates to the result of
+`expr_regexec(".*")` on the header - a match, for a regex library that matches `.*` - when
+`now - (epoch(civil time) - zone offset)` is greater (resp. less) than `age`, strictly, and to "no match" otherwise.
+No local time zone, no daylight-saving rule and nothing else of the environment enters. -/
+theorem C15_header_true_age (env : Env) (root : Msg) (lno : Nat) (cmp : DateCmp) (age : Nat) (part : Nat) (m : Msg) (st : St)
+    (s rest : Bytes) (y mon d h mi sec : Nat) (plus : Bool) (hh mm : Nat) (tail : Bytes)
+    (hy : 1 ≤ y) (hm : mon ≤ 11) (hd : 1 ≤ d) (h1 : hh ≤ 23) (h2 : mm ≤ 59)
+    (hdate : getHeader1 m (ofString "Date") = some s)
+    (hs : env.strptime s = some ({ year := y, mon := mon, mday := d, hour := h, min := mi, sec := sec }, rest))
+    (hz : rest.drop (nspaces rest) = (if plus then 43 else 45) :: (Proofs.twoDigits hh ++ Proofs.twoDigits mm ++ tail))
+    (hne : Spec.epoch y (mon + 1) d h mi sec ≠ -1) :
+    eval env root (.date lno .header cmp age) part m st =
+      (if Proofs.AgeHolds cmp age env.now
+          (Spec.epoch y (mon + 1) d h mi sec - Spec.zoneOffset (if plus then 1 else -1) hh mm) then
+        exprRegexec env .date lno part { src := [46, 42] } (ofString "Date") s st
+      else (.nomatch, st)) := by
+  rw [C15_fields]
+  have ht := (C15_true_age env.strptime env.zoneName s rest y mon d h mi sec plus hh mm tail hy hm hd h1 h2 hs hz hne).1
+  simp only [Proofs.dateInstant, hdate, ht]
+
+/-- An environment whose clock stands at 2026-01-15 12:00:00 UTC and whose `strptime` reads that civil time. -/
+def exHeaderDateEnv : Env :=
+  { Proofs.exDateEnv with
+    now := 1768478400
+    strptime := fun _ => some ({ year := 2026, mon := 0, mday := 15, hour := 12, min := 0, sec := 0 }, ofString " +0130") }
+
+/-- Non-vacuity of `C15_header_true_age`, every hypothesis instantiated: a message dated 12:00 +0130 (= 10:30 UTC) seen at
+12:00 UTC is 5400 s old: `> 5399` matches, `> 5400` does not (strict), `< 5401` matches. -/
+example :
+    let m := parseMessage (ofString "Date: Thu, 15 Jan 2026 12:00:00 +0130\n\nb\n")
+    let st : St := { ml := [], flags := MFlags.empty }
+    getHeader1 m (ofString "Date") = some (ofString "Thu, 15 Jan 2026 12:00:00 +0130") ∧
+    (eval exHeaderDateEnv m (.date 1 .header .gt 5399) 0 m st).1 = .match ∧
+    (eval exHeaderDateEnv m (.date 1 .header .gt 5400) 0 m st).1 = .nomatch ∧
+    (eval exHeaderDateEnv m (.date 1 .header .lt 5401) 0 m st).1 = .match := by
+  intro m st
+  have hd : getHeader1 m (ofString "Date") = some (ofString "Thu, 15 Jan 2026 12:00:00 +0130") := by decide +kernel
+  have key := fun cmp age => C15_header_true_age exHeaderDateEnv m 1 cmp age 0 m st (ofString "Thu, 15 Jan 2026 12:00:00 +0130")
+    (ofString " +0130") 2026 0 15 12 0 0 true 1 30 [] (by decide) (by decide) (by decide) (by decide) (by decide) hd rfl
+    (by decide +kernel) (by decide +kernel)
+  have e1 : Spec.epoch 2026 (0 + 1) 15 12 0 0 = 1768478400 := by decide +kernel
+  have e2 : Spec.zoneOffset (if true = true then 1 else -1) 1 30 = 5400 := by decide +kernel
+  refine ⟨hd, ?_, ?_, ?_⟩
+  · rw [key, e1, e2]; decide +kernel
+  · rw [key, e1, e2]; decide +kernel
+  · rw [key, e1, e2]; decide +kernel
 
 /-! Non-vacuity: a file with `st_atim = 300`, `st_mtim = 100`, `st_ctim = 200` at `now = 1000`
 (`Proofs.exDateEnv`): the three fields give three different answers to `> 850 seconds`, `>` and `<`
